@@ -345,8 +345,134 @@ def pool_corr(ctx, res):
         res.mismatches.append(dict(case=meta[idx], impl=coq_cases[idx][1], model=model_out))
 
 
+# ---------------------------------------------------------------------------------------------
+# the engine as the library's own set-up class assembles it (documented defaults), with data, generated data and
+# action results that are ordinary Python objects rather than JSON values
+class _Opaque:
+    def __repr__(self):
+        return "Opaque()"
+
+
+SETUP_STREAMS = [
+    ("x01", "a", "set", "obj", "b", 7),
+    ("a", "obj", "b", "a", "b"),
+    ("tuple", "a", "b", "nan", "a", "bytes", "b"),
+]
+
+
+def setup_one(stream, every, handler_kind="blocking"):
+    """BoboSetupSimple(phenomena, handler) with nothing else given: phenomenon low = 'a' then 'b' (generated data:
+    the contributing events themselves; action result: a set), phenomenon high = complex event of low, then action
+    event of low.  Every datum must reach the decider once and in order, low's complex and action event must
+    re-enter, high must complete once per completion of low."""
+    from bobocep.cep.action.action import BoboAction
+    from bobocep.cep.action.handler import BoboActionHandlerBlocking, BoboActionHandlerMultithreading
+    from bobocep.cep.engine.receiver.pubsub import BoboReceiverSubscriber
+    from bobocep.cep.engine.producer.pubsub import BoboProducerSubscriber
+    from bobocep.cep.engine.forwarder.pubsub import BoboForwarderSubscriber
+    from bobocep.cep.event import BoboEventSimple, BoboEventComplex, BoboEventAction
+    from bobocep.cep.phenom.pattern.builder import BoboPatternBuilder
+    from bobocep.cep.phenom.phenom import BoboPhenomenon
+    from bobocep.setup.simple import BoboSetupSimple
+
+    class Spy(BoboReceiverSubscriber, BoboProducerSubscriber, BoboForwarderSubscriber):
+        def __init__(self):
+            self.stream, self.complex, self.action = [], [], []
+
+        def on_receiver_update(self, event):
+            self.stream.append(event)
+
+        def on_producer_update(self, event, local):
+            self.complex.append(event)
+
+        def on_forwarder_update(self, event):
+            self.action.append(event)
+
+    class Act(BoboAction):
+        def __init__(self):
+            super().__init__(name="act_low")
+            self.calls = []
+
+        def execute(self, event):
+            self.calls.append(event)
+            return True, {"ops", "audit"}
+
+    values = {"x01": b"\x01\x02", "set": {1, 2, 3}, "obj": _Opaque(), "tuple": (1, (2, 3)), "nan": float("nan"),
+              "bytes": bytes(range(5))}
+    data = [values.get(d, d) for d in stream]
+    act = Act()
+    low = BoboPhenomenon(name="low", patterns=[
+        BoboPatternBuilder("ab").followed_by(lambda e, h: isinstance(e, BoboEventSimple) and e.data == "a")
+                                .followed_by(lambda e, h: isinstance(e, BoboEventSimple) and e.data == "b").generate()],
+        action=act, datagen=lambda p, h: tuple(h.all_events()))
+    high = BoboPhenomenon(name="high", patterns=[
+        BoboPatternBuilder("ca").followed_by(lambda e, h: isinstance(e, BoboEventComplex) and e.phenomenon_name == "low")
+                                .followed_by(lambda e, h: isinstance(e, BoboEventAction) and e.phenomenon_name == "low").generate()])
+    handler = BoboActionHandlerBlocking() if handler_kind == "blocking" else BoboActionHandlerMultithreading(threads=2)
+    engine = BoboSetupSimple(phenomena=[low, high], handler=handler).generate()
+    spy = Spy()
+    engine.receiver.subscribe(spy)
+    engine.producer.subscribe(spy)
+    engine.forwarder.subscribe(spy)
+    try:
+        for i, d in enumerate(data):
+            engine.receiver.add_data(d)
+            if i % every == every - 1:
+                engine.update()
+        import time as _t
+        for _ in range(200):
+            engine.update()
+            if handler_kind != "blocking":
+                _t.sleep(0.005)
+            if (engine.receiver.size() == 0 and engine.decider.size() == 0 and engine.producer.size() == 0
+                    and engine.forwarder.size() == 0 and handler.size() == 0 and _ > 3):
+                break
+    finally:
+        if handler_kind != "blocking":
+            handler.close()
+    seen = [e.data for e in spy.stream if isinstance(e, BoboEventSimple)]
+    if len(seen) != len(data) or any(a is not b for a, b in zip(seen, data)):
+        return dict(signature="setup-default-datum-not-seen-once-in-order",
+                    what="engine from BoboSetupSimple (defaults): data %r were added, the decider saw the simple events %r" % (data, seen))
+    # runs of low: an 'a' followed (later) by a 'b' completes every open run; every 'a' opens one
+    want, open_ = 0, 0
+    for d in stream:
+        if d == "a":
+            open_ += 1
+        elif d == "b":
+            want, open_ = want + open_, 0
+    n_c = sum(1 for c in spy.complex if c.phenomenon_name == "low")
+    n_a = sum(1 for a in spy.action if a.phenomenon_name == "low")
+    if (n_c, len(act.calls), n_a) != (want, want, want):
+        return dict(signature="setup-default-counts", what="engine from BoboSetupSimple (defaults): %d runs of 'low' completed; complex events %d, "
+                    "executions %d, action events %d" % (want, n_c, len(act.calls), n_a))
+    back_c = sum(1 for e in spy.stream if isinstance(e, BoboEventComplex) and e.phenomenon_name == "low")
+    back_a = sum(1 for e in spy.stream if isinstance(e, BoboEventAction) and e.phenomenon_name == "low")
+    if (back_c, back_a) != (want, want):
+        return dict(signature="setup-default-event-did-not-re-enter",
+                    what="engine from BoboSetupSimple (defaults): %d completions of 'low', but %d complex and %d action events of it "
+                         "re-entered the stream (generated data: a tuple of events; action result: a set)" % (want, back_c, back_a))
+    return None
+
+
+def setup_half(ctx, res):
+    n = 0
+    for stream in SETUP_STREAMS:
+        for every in (1, 2, 3):
+            for hk in ("blocking", "threads"):
+                n += 1
+                f = setup_one(stream, every, hk)
+                res.note_case(("setup", stream, every, hk), True)
+                if f:
+                    f["case"] = dict(setup=True, stream=list(stream), every=every, handler=hk)
+                    f["detail"] = None
+                    res.failures.append(f)
+    res.extra["setup_default_engines"] = n
+
+
 def run(ctx, res):
     pool_half(ctx, res)
+    setup_half(ctx, res)
     cases = gen_cases(ctx)
     results = pmap(work, cases)
     coq_cases = []
@@ -379,6 +505,10 @@ def replay(obj):
     if not case:
         print(obj)
         return 0
+    if case.get("setup"):
+        f = setup_one(tuple(case["stream"]), case["every"], case["handler"])
+        print("oracle        :", f["what"] if f else "every datum seen once and in order; complex and action events re-entered; one per completed run")
+        return 1 if f else 0
     ed = case["ed"]
     if case.get("handler") == "pool-gated":
         return replay_pool(case)
